@@ -439,6 +439,7 @@ func (i *interpreter) runPath(job *Job, prefix []Decision) (p *pathState) {
 	i.path = p
 	i.job = job
 	i.abortReason = ""
+	i.noFork = false
 	i.schedChoicesUsed = 0
 	i.syncTab = map[*value]*syncState{}
 	i.hostCounters = map[string]int64{}
@@ -523,6 +524,7 @@ func (i *interpreter) runPath(job *Job, prefix []Decision) (p *pathState) {
 					p.status = fmt.Sprintf("unsupported: engine panic in drain %v", r)
 				}
 			}()
+			i.noFork = true
 			leaked, running := i.sched.drain(i.cfg.DrainSteps)
 			if (len(leaked) > 0 || running) && i.cfg.CheckLeaks && !job.NoLeakCheck {
 				var ds []string
